@@ -110,7 +110,7 @@ def correspond(ctx, gen_ok):
     from skfem.element import DiscreteField
     Stub = S.make_stub_class()
     rng = ctx.rng
-    ncase = ctx.n(90, 400)
+    ncase = ctx.n(45, 400)
     bil, bil_dense, lin, lin_dense, fun, itp = [], [], [], [], [], []
     for c in range(ncase):
         Nu, Nv = rng.randint(0, 4), rng.randint(0, 4)
@@ -154,7 +154,7 @@ def correspond(ctx, gen_ok):
     # --- TrilinearForm on three different stub bases
     from skfem.assembly import TrilinearForm
     tri, trid = [], []
-    for c in range(ctx.n(14, 80)):
+    for c in range(ctx.n(10, 80)):
         Nu, Nv, Nw = rng.randint(1, 3), rng.randint(1, 3), rng.randint(1, 3)
         if c < 6:
             Nu, Nv, Nw = rng.sample([1, 2, 3], 3)
@@ -274,7 +274,7 @@ Definition cout_eqb (a b : cout) : bool :=
             + [(f'(CTri {i})', f'(OCoo {o})', r) for i, o, r in tri] + [(f'(CTriD {i})', f'(ODense3 {o})', r) for i, o, r in trid])
     for r in allc:
         ctx.hist('stub correspondence kind', r[2][0])
-    bad = ctx.corr('stub_assembly', S.COQ_IMPORTS, 'run_any', 'cout_eqb', allc, per_file=40, defs=defs, nontrivial=lambda r: r[1])
+    bad = ctx.corr('stub_assembly', S.COQ_IMPORTS, 'run_any', 'cout_eqb', allc, per_file=(90 if ctx.quick() else 40), defs=defs, nontrivial=lambda r: r[1])
     for i in (bad or [])[:3]:
         ctx.log('disagreeing case:', allc[i][2][0], str(allc[i][2][2])[:300])
     if bil:
@@ -338,6 +338,32 @@ def param_kinds(ctx):
                     ctx.fail(f'param-default:{nm}:{fname}', f'{fname} form: the default parameter {nm!r} of the basis is not passed to the form',
                              dict(info, name=nm))
         ub.defaults = {}
+        # (i) a pre-interpolated field handed to a functional is an input: an integrand that returns it unchanged must not
+        #     modify it (re-use gives the same value); (ii) a complex integrand in a Functional created without dtype= keeps its
+        #     imaginary part; (iii) scaling the integrand by 2^-50 scales every entry of the matrix exactly
+        fld = DiscreteField(arr.copy())
+        e1 = _run(ctx, 'functional-reuse', 'Functional returning its input field', info, lambda: Functional(lambda w: w['c']).elemental(ub, c=fld))
+        t1 = _run(ctx, 'functional-reuse', 'Functional returning its input field', info, lambda: Functional(lambda w: w['c']).assemble(ub, c=fld))
+        ctx.count(('reuse', info), nontrivial=True)
+        if e1 is not None and t1 is not None:
+            ref = (arr * np.array(ub.dx)).sum(-1)
+            if not np.array_equal(np.array(fld), arr) or not np.array_equal(e1, ref) or float(t1) != float(ref.sum()):
+                ctx.fail('functional-reuse', 'a Functional modified the pre-interpolated field it was given (or the second use of the field '
+                         'gave another value)', dict(info, field_before=arr.tolist(), field_after=np.array(fld).tolist(),
+                                                     first=np.asarray(e1).tolist(), second_total=float(np.real(t1)), expected=ref.tolist()))
+        tc = _run(ctx, 'functional-complex', 'complex Functional without dtype=', info,
+                  lambda: Functional(lambda w: (1.0 + 2.0j) * w['c']).assemble(ub, c=DiscreteField(arr)))
+        if tc is not None:
+            refc = (1.0 + 2.0j) * (arr * np.array(ub.dx)).sum()
+            if complex(tc) != complex(refc):
+                ctx.fail('functional-complex', 'a Functional created without dtype= loses the imaginary part of a complex integrand',
+                         dict(info, got=str(complex(tc)), expected=str(complex(refc))))
+        A1 = BilinearForm(S.py_form2(k2)).assemble(ub, vb, c=DiscreteField(arr)).toarray()
+        A2 = _run(ctx, 'scale-invariance', 'assembly of a tiny integrand', info,
+                  lambda: BilinearForm(lambda u, v, w: 2.0 ** -50 * S.py_form2(k2)(u, v, w)).assemble(ub, vb, c=DiscreteField(arr)).toarray())
+        if A2 is not None and not np.array_equal(A2, 2.0 ** -50 * A1):
+            ctx.fail('scale-invariance', 'scaling the integrand by 2^-50 does not scale the assembled matrix by 2^-50 (entries lost)',
+                     dict(info, nonzeros=int((A1 != 0).sum()), nonzeros_scaled=int((A2 != 0).sum())))
         # Form.partial binds extra arguments of the integrand; decorator forms (Form()(f)) keep dtype / nthreads
         def f4(u, v, w, alpha=1, beta=0):
             return alpha * S.py_form2(k2)(u, v, w) + beta * u * v
